@@ -210,6 +210,16 @@ def map_reports(reports, data, repo=None):
     pairs, unmapped, uncovered = {}, {}, {}
     for r in reports:
         sides = []
+        if len(r["ops"]) >= 2 and all(any("/internal/control_loop." in f for f, _ in stack) for _, stack in r["ops"][:2]):
+            # both accesses inside a control-loop object's Cycle: a control loop belongs to ONE controller (the table knows
+            # no conflict on it), so two goroutines in the same loop object means that controllers share it. The accessed
+            # field (util.PidLoop.*) is also a field of PID curves, whose sharing is a known finding: not to be mistaken for it
+            f0 = [f for f, _ in r["ops"][0][1] if f.startswith(MOD)][:1] + [f for f, _ in r["ops"][1][1] if f.startswith(MOD)][:1]
+            fpair = "control-loop object shared between controllers: " + " x ".join(_short(f) for f in f0)
+            u = unmapped.setdefault((fpair, "control", "control"), {"functions": fpair, "kindA": "control", "kindB": "control", "n": 0,
+                                                                  "candidates": [], "runtime_frames": []})
+            u["n"] += 1
+            continue
         for op, stack in r["ops"]:
             is_write = "rite" in op
             kind = _kind_of(stack)
